@@ -1,7 +1,7 @@
 #!/bin/bash
 # seeded_run.sh <seed-id> [tier]  : run the property's check against the seeded change on a scratch copy of /repo
 ID=$1; TIER=${2:-quick}
-P=${ID%%_*}
+P=${PROP:-${ID%%_*}}
 D=/tmp/vp_seed_${ID}_$$
 rm -rf $D; cp -a /repo $D; rm -rf $D/.git; (cd $D && git init -q . >/dev/null 2>&1)
 if ! (cd $D && git apply /verif/seeded/$ID/patch.diff); then echo "SEEDED $ID: patch does not apply to current /repo"; rm -rf $D; exit 3; fi
@@ -17,7 +17,7 @@ import json, sys
 sid, tier, rc, wall, buckets = sys.argv[1:6]
 p = f'/verif/seeded/{sid}/meta.json'
 m = json.load(open(p))
-m.setdefault('check_runs', {})[tier] = {'cmd': f'VERIF_REPO=<scratch copy with patch> run.py {sid.split("_")[0]} --tier {tier}', 'exit': int(rc), 'wall_s': int(wall),
+m.setdefault('check_runs', {})[tier if sid.split('_')[0] == __import__('os').environ.get('PROP', sid.split('_')[0]) else tier + ':' + __import__('os').environ['PROP']] = {'cmd': f'VERIF_REPO=<scratch copy with patch> run.py {sid.split("_")[0]} --tier {tier}', 'exit': int(rc), 'wall_s': int(wall),
                                        'detected': rc == '1', 'new_buckets': buckets.split()}
 json.dump(m, open(p, 'w'), indent=1)
 PY
